@@ -8,7 +8,7 @@ From Coq Require Import String.
 From Coq Require Import List Arith NArith Bool.
 Import ListNotations.
 From YP Require Import Base.Str Lang.Ast Lang.Unquote Lang.Front Comp.IR Comp.CompileBody Comp.CompileClause Comp.CompileTotal Comp.Emit
-  Comp.PyRepr Comp.Limits Comp.CompileText Comp.EmitShape Comp.EmitNames Comp.EmitPieces Comp.EmitLines Comp.CompileTextSound.
+  Comp.PyRepr Comp.Limits Comp.CompileText Comp.EmitShape Comp.EmitNames Comp.EmitPieces Comp.EmitLines Comp.CompileTextSound Comp.FrontLex.
 From YP Require Engine.Resolve.
 Local Open Scope string_scope.
 Local Open Scope list_scope.
@@ -79,6 +79,18 @@ Theorem C11_text_lines : forall printable s text, compile_text printable s = CTe
     (lexical_ok p = true -> split_nl text = emit_lines (py_repr printable) ir).
 Proof. exact text_lines. Qed.
 Print Assumptions C11_text_lines.
+
+(* every program the front end returns is lexically well-formed (lexer rule languages + parse_yield + the visitor copies token
+   texts; anonymous variables are x<n>), so the hypothesis lexical_ok holds for every accepted source text ... *)
+Theorem C11_front_lexical : forall s p, front s = Some p -> lexical_ok p = true.
+Proof. exact front_lexical. Qed.
+Print Assumptions C11_front_lexical.
+
+(* ... and the lines of an accepted text are, unconditionally, the lines of emit_lines *)
+Theorem C11_text_lines_exact : forall printable s text, compile_text printable s = CText text ->
+  exists p ir, front s = Some p /\ compile_program p = Some ir /\ split_nl text = emit_lines (py_repr printable) ir.
+Proof. exact text_lines_exact. Qed.
+Print Assumptions C11_text_lines_exact.
 
 (* emit_lexemes_valid: integer literals are canonical decimals; a Prolog variable becomes an ASCII identifier with the reserved
    prefix V_, which is none of Python's keywords / constants / __debug__, no engine API name, and none of the names the
